@@ -16,7 +16,8 @@ var Sigma = []string{
 // EditSyms are the symbols inserted/substituted by the edit neighbourhoods: Sigma plus
 // a few bytes outside it (a lone carriage return, backslash, NUL, the pieces of the
 // two-byte operators, a single quote, and Unicode white space that is not ASCII).
-var EditSyms = append(append([]string{}, Sigma...), "\r", "\\", "\x00", "=", "-", ">", "'", "\u00a0", "\u2028", "\v")
+var EditSyms = append(append([]string{}, Sigma...), "\r", "\\", "\x00", "=", "-", ">", "'", "\u00a0", "\u2028", "\v",
+	"\u0085", "\ufeff", "e\u0301", "\U0001d49c", "\u200d", "task ", "\n#\n")
 
 // Input is one generated input with its provenance.
 type Input struct {
@@ -293,6 +294,12 @@ func Spaces(tier string, forC06 bool, repo string) []Space {
 	sp = append(sp, SigmaSpace{N: n})
 	bases := CanonicalBases(ReducedStatements(true), 1, 0)
 	bases = append(bases, CanonicalBases(SmallStatements(), 2, 0)...)
+	// every pair of reduced statements that renders in <= 70 bytes (thorough: <= 120)
+	limit := 70
+	if thorough {
+		limit = 120
+	}
+	bases = append(bases, CanonicalBases(ReducedStatements(true), 2, limit)...)
 	sp = append(sp, EditSpace{Label: "edit1", Bases: bases})
 	sp = append(sp, EditSpace{Label: "edit1-repo", Bases: RepoBases(repo), Chunks: 64})
 	sweep := []string{"# c\nX := \"x\"\n", "task a(\"x\", b) -> (\"o\", X) {\n    echo {{.X}}\n}\n", "Y := join(\"a\", \"b\")\ntask b() { go test }\n"}
